@@ -16,7 +16,9 @@ def run(ctx):
         vlib.model_check(ctx, 'OciRegistryMC.tla', 'OciRegistryMC_up.cfg', what='2 repos, 3 blobs, 1 upload session, mounts')
     # 2. histories chosen by TLC, and seeded-random ones over a larger universe, on the real ocimem
     vh = vlib.build_harness(ctx)
-    scen = rc.gen_scenarios(ctx, 60 if quick else 1500)
+    scen = rc.gen_scenarios(ctx, 40 if quick else 1500)
+    # transition coverage: one history per (state, operation) pair of the model-checked universe
+    scen += rc.cover_scenarios(ctx, 'OciRegistryCover_all.cfg', sample=1200 if quick else 60000)
     sp = rc.write_scenarios(ctx, scen)
     td = ctx.sub('traces')
     traces = []
